@@ -192,6 +192,34 @@ def checkDealloc (p : Nat) (own indirect : Bool) (t : Ty) (v : Val) (b : Block) 
         (if !blocksOk then " freed=" ++ toString (sortBlocks s.freed) ++ " expected=" ++ toString (sortBlocks expected)
          else " dropped=" ++ toString s.dropped ++ " expected=" ++ toString wantDrops)
 
+mutual
+/-- spec side of "a result contains a heap buffer": a string, list or map is reachable (at any depth,
+in any variant case, also through fixed-length lists) -/
+def hasBuffer : Ty → Bool
+  | .string | .list _ | .map _ _ => true
+  | .flist e _ => hasBuffer e
+  | .record fs => hasBufferAny fs
+  | .tuple ts => hasBufferAny ts
+  | .variant cs => hasBufferAnyOpt cs
+  | .option t => hasBuffer t
+  | .result a b => hasBufferOpt a || hasBufferOpt b
+  | _ => false
+def hasBufferAny : List Ty → Bool
+  | [] => false
+  | t :: ts => hasBuffer t || hasBufferAny ts
+def hasBufferOpt : Option Ty → Bool
+  | none => false
+  | some t => hasBuffer t
+def hasBufferAnyOpt : List (Option Ty) → Bool
+  | [] => false
+  | t :: ts => hasBufferOpt t || hasBufferAnyOpt ts
+end
+
+/-- C03: "a post-return entry point is generated exactly when a result contains a heap buffer" -/
+def checkNeeds (f : Func) (implPostReturn : Bool) : String :=
+  if implPostReturn == hasBufferOpt f.result then "ok"
+  else "FAIL post-return=" ++ toString implPostReturn ++ " result-has-buffer=" ++ toString (hasBufferOpt f.result)
+
 /-! ### C02: call glue -/
 
 /-- flat lowering of several values, threading the state -/
